@@ -45,7 +45,6 @@ def reg(pid, units, explanation, assumptions=(), level_text='', level_note='', t
 
 NOT_BUILT = 'planned unit not built (DESIGN.md section 8): no contract on this code is discharged yet, so the property is not claimed'
 NOT_APPLICABLE = {
-    'C03': 'partition refinement is written as closure chains over BTreeMap<StateID, BTreeMap<CharClassID, Vec<StateID>>>; Verus cannot ingest it without a rewrite that would be a model, and the Kani stand-in did not terminate at 3 states x 2 classes (25 min, 5.7 GB)',
     'C14': 'concurrency: Kani has no thread support and Verus would need its own permission types in place of RwLock/LazyLock/Arc (a rewrite, i.e. a model)',
     'C16': 'behaviour lives in the expansion of serde derives and in serde_json; there is no function of scnr to put a contract on',
     'C18': 'output is produced through format!/escape_debug and the drop-driven dot_writer builder; no string-formatting or drop-order reasoning in Verus, CBMC cost dominated by fmt',
@@ -93,6 +92,20 @@ reg('C17', ['u_min'],
     ['automata have at most u32::MAX states (width of StateID; not reachable in addressable memory)', 'derived Ord on StateID is the integer order (BTreeSet key model)',
      'that the rest of the minimizer is correct for large automata is C03 (not decided)'],
     technique='Verus function contract on find_group + self-generated cast-losslessness obligations')
+
+reg('C03', ['u_mini'],
+    'every function of Minimizer (minimizer.rs, no function left as a stub) is under contract: calculate_initial_partition (non-accepting states in group 0, accepting states grouped by token type), '
+    'build_transitions_to_partition_group / split_group / calculate_new_partition (pieces of a group have equal (class, target group) signatures; order kept; no growth means unchanged), '
+    'the refinement loop of minimize (terminates at a stable partition), create_from_partition, add_representative_state, merge_transitions(_of_state), renumber_states_in_transitions, update_transitions '
+    '(the result is the quotient automaton: state g has an edge (cc, h) exactly when a member of group g has an edge on cc into group h; end-state entries are those of the members; group 0 holds state 0). '
+    'Minimizer::minimize ensures minimized(dfa, r) (r is the quotient by a stable, acceptance-homogeneous partition whose group 0 holds the start state) and r.states.len() <= dfa.states.len(); '
+    'theorem_quotient_language / theorem_minimize_language (spec level, by induction over the word) conclude: for every class predicate, every string and every token type, r accepts exactly when dfa accepts, both from state 0.',
+    ['precondition of Minimizer::minimize: d_wf(dfa) only (>= 1 state, fewer than u32::MAX states, one end-state entry per state, targets are states); an accepting start state and an initial partition with an empty group of non-accepting states are covered',
+     'TRUSTED std contracts through external_body wrappers (rule U5): BTreeMap::into_values().collect(), Vec<BTreeSet>::ne / clone, Vec<StateID>::clone, BTreeMap<CharClassID, Vec<StateID>>::clone, BTreeMap::keys().cloned().collect()',
+     'axioms: BTreeSet<StateID>/BTreeMap<StateID,_> iterate in ascending id order and BTreeSet::first is the least element (derived Ord of the id newtype), clone of StateData / (bool, TerminalID) / BTreeSet<StateID> is the identity on views (vec![e; n]), sort/dedup contracts (units/common/sort_specs.rs)',
+     'rewrites E11/E13/E14/E15 (iterator adapters, entry API, values_mut as their std definitions) are equivalences by the std documentation, not proved',
+     'lookaheads, terminal_ids and patterns are carried over unchanged (proved as frame conditions); lookahead automata are minimized by their own minimize call'],
+    technique='Verus function contracts + loop invariants on every Minimizer function; quotient-language theorem as a spec-level lemma')
 
 reg('C13', ['u_cache'],
     'ScannerCache::get relative to an abstract compile(modes): a hit and a miss both return exactly compile(modes); a failing build returns the error and leaves the cache unchanged (insertion only after success); entries are never overwritten; the key types still derive PartialEq/Eq/Hash field-wise (checked mechanically: derives present, no hand-written impl)',
